@@ -261,6 +261,58 @@ func knownScenarios() []knownScenario {
 	}
 }
 
+// script-level scenarios around the small language (constructs the model does not have: foreach, while,
+// methods, arguments, string interpolation); judged against the output PHP gives
+func extraScenarios() []knownScenario {
+	cls := "<?php\nclass K3 extends Exception {}\nclass K4 extends K3 {}\nclass O { function m() { throw new K4(\"s1\"); } function ok() { return 5; } }\nfunction thrower() { throw new K4(\"s2\"); }\nfunction id($x) { return $x; }\n$o = new O();\n"
+	return []knownScenario{
+		{Name: "interpolation", Sig: "exc:uncatchable:interpolation",
+			Script: cls + "echo \"m1;\";\ntry { echo \"T1;\"; $s = \"v={$o->m()}\"; echo \"no;\"; } catch (K3 $e) { echo \"C1:\", get_class($e), \";\"; } finally { echo \"F1;\"; }\necho \"m2;\";\n",
+			Good: "m1;T1;C1:K4;F1;m2;", What: "an exception thrown while evaluating a string interpolation \"{$o->m()}\" inside try is not offered to the catch clauses and finally does not run (nested node.Program hands the control to VM.ThrowControl)"},
+		{Name: "interpolation-heredoc", Sig: "exc:uncatchable:interpolation",
+			Script: cls + "try { echo \"T1;\"; $s = <<<EOT\nv={$o->m()}\nEOT;\necho \"no;\"; } catch (K3 $e) { echo \"C1;\"; } finally { echo \"F1;\"; }\necho \"m2;\";\n",
+			Good: "T1;C1;F1;m2;", What: "an exception thrown while evaluating a heredoc interpolation inside try is not catchable"},
+		{Name: "foreach-break-finally", Sig: "exc:finally:foreach-break",
+			Script: cls + "foreach ([1, 2, 3] as $i) { try { echo \"T$i;\"; if ($i == 2) { break; } echo \"b$i;\"; } finally { echo \"F$i;\"; } }\necho \"m2;\";\n",
+			Good: "T1;b1;F1;T2;F2;m2;", What: "finally on break inside foreach"},
+		{Name: "foreach-continue-finally", Sig: "exc:finally:foreach-continue",
+			Script: cls + "foreach ([1, 2, 3] as $i) { try { echo \"T$i;\"; if ($i == 2) { continue; } echo \"b$i;\"; } finally { echo \"F$i;\"; } }\necho \"m2;\";\n",
+			Good: "T1;b1;F1;T2;F2;T3;b3;F3;m2;", What: "finally on continue inside foreach"},
+		{Name: "while-break-finally", Sig: "exc:finally:while-break",
+			Script: cls + "$i = 0;\nwhile ($i < 3) { $i++; try { echo \"T$i;\"; if ($i == 2) { break; } } finally { echo \"F$i;\"; } }\necho \"m2;\";\n",
+			Good: "T1;F1;T2;F2;m2;", What: "finally on break inside while"},
+		{Name: "method-throw", Sig: "exc:catch:method",
+			Script: cls + "try { echo \"T1;\"; $o->m(); echo \"no;\"; } catch (K4 $e) { echo \"C1:\", $e->getMessage(), \";\"; } finally { echo \"F1;\"; }\n",
+			Good: "T1;C1:s1;F1;", What: "exception thrown by a method"},
+		{Name: "argument-throw", Sig: "exc:catch:argument",
+			Script: cls + "try { echo \"T1;\"; echo id(thrower()); echo \"no;\"; } catch (K3 $e) { echo \"C1:\", get_class($e), \";\"; } finally { echo \"F1;\"; }\necho \"m2;\";\n",
+			Good: "T1;C1:K4;F1;m2;", What: "exception thrown while evaluating a call argument"},
+		{Name: "catch-without-variable", Sig: "exc:catch:no-variable",
+			Script: cls + "try { echo \"T1;\"; thrower(); } catch (K3) { echo \"C1;\"; }\necho \"m2;\";\n",
+			Good: "T1;C1;m2;", What: "catch (K3) without a variable"},
+		{Name: "nested-function-finally-order", Sig: "exc:finally:unwind-order",
+			Script: cls + "function a() { try { echo \"Ta;\"; b(); } finally { echo \"Fa;\"; } }\nfunction b() { try { echo \"Tb;\"; thrower(); } finally { echo \"Fb;\"; } }\ntry { a(); } catch (Exception $e) { echo \"C:\", get_class($e), \";\"; }\n",
+			Good: "Ta;Tb;Fb;Fa;C:K4;", What: "finally blocks run innermost first while an exception unwinds through two functions"},
+		{Name: "return-value-computed-before-finally", Sig: "exc:finally:return-value",
+			Script: cls + "function rv() { $x = 1; try { return $x; } finally { $x = 2; echo \"F;\"; } }\necho rv(), \";\";\n",
+			Good: "F;1;", What: "the returned value is computed before the finally block runs"},
+	}
+}
+
+func (r *runner) extra(only string) {
+	for _, k := range extraScenarios() {
+		if only != "" && k.Name != only {
+			continue
+		}
+		res := runScript(k.Script)
+		r.c.Eval("script:"+k.Name, true)
+		r.c.Hit("stream:scripts")
+		if res.Raw != k.Good {
+			r.c.Violation(k.Sig, fmt.Sprintf("%s — script printed %q (run ended %s), PHP prints %q", k.What, res.Raw, res.Final, k.Good), replay{Kind: "script", Name: k.Name})
+		}
+	}
+}
+
 func (r *runner) known(only string) {
 	for _, k := range knownScenarios() {
 		if only != "" && k.Name != only {
